@@ -997,7 +997,7 @@ def run_c12(ctx):
             plain += bytes((16 - len(plain) % 16) % 16)
             val = ref_encrypt_plain(t, plain, s, rv)
         else:
-            val = rbytes(rng, rng.choice([0, 1, 15, 16, 17, 32, 48]))
+            val = rbytes(rng, rng.choice([0, 1, 8, 15, 16, 17, 24, 32, 40, 48, rng.randrange(0, 100)]))
         rvl.append('REVEAL\tHidden(%d,%s)\t%s\t%s' % (t, val.hex(), s.hex(), rv.hex()))
     run_compare(ctx, rep, rvl, ['reveal'] * len(rvl), lambda c, r: r)
     md = ['MD5\t' + rbytes(rng, n).hex() for n in list(range(0, 130)) + [rng.randrange(0, 300) for _ in range(ctx.scale(300, 3000))]]
@@ -1038,7 +1038,10 @@ def run_c13(ctx):
             me = tot < 6 or tot - 6 > avail
             tag = 'crafted_len'
         elif c < 0.5:
-            val = rbytes(rng, rng.choice([0, 1, 2, 15, 17, 31, 33]))
+            n = rng.choice([0, 1, 2, 8, 15, 17, 24, 31, 33, 40, rng.randrange(0, 200)])
+            if n and n % 16 == 0:
+                n += rng.randrange(1, 16)
+            val = rbytes(rng, n)
             me = True
             tag = 'misaligned_or_empty'
         elif c < 0.8:
